@@ -538,6 +538,50 @@ def check_locked_dyn(name, res):
     res.w('locked_dynamic_registration_located')
 
 
+# --------------------------------------------------------------- a locked configuration rejects the first statement that
+# would modify it, whatever kind of statement that is; the error names the file and line (and the include chain)
+LOCKED_FIRST = {
+    'binding': "import json\n\n# comment\nc16.g.p = 3\n",
+    'scoped_binding': "\n\n\ns/t/c16.g.p = 3\n",
+    'block': "\n\n# c\nc16.g:\n  p = 3\n",
+    'macro': "import json\n\n# comment\nlimit16 = 3\nc16.g.p = %limit16\n",
+    'scoped_macro': "\n\n\nsome/limit16 = 3\n",
+    'macro_long_form': "\n\n\nlimit16/gin.macro.value = 3\n",
+    'included_macro': "include 'c16_locked_first_inner.gin'\n",
+    'included_twice_macro': "\ninclude 'c16_locked_first_outer.gin'\n",
+}
+
+
+def check_locked_first(name, res):
+  desc = ['locked_first', name]
+  harness.hard_reset()
+  MEM.clear()
+  MEM['c16_locked_first_inner.gin'] = LOCKED_FIRST['macro']
+  MEM['c16_locked_first_outer.gin'] = "# outer\n\ninclude 'c16_locked_first_inner.gin'\n"
+  res.case(tuple(desc), True)
+  gin.parse_config("c16.f.a = 1\n")
+  gin.finalize()
+  try:
+    gin.parse_config(LOCKED_FIRST[name])
+    res.violation('state_not_prefix:config', '%r: a statement on a locked configuration was accepted' % (desc,), desc)
+    return
+  except RuntimeError as e:
+    msg = str(e)
+  except Exception as e:  # pylint: disable=broad-except
+    res.violation('wrong_exception_class:locked_first', '%r: raised %r, expected RuntimeError (locked)' % (desc, e), desc)
+    return
+  want = {'included_macro': ['c16_locked_first_inner.gin', 'line 4', 'line 1'],
+          'included_twice_macro': ['c16_locked_first_inner.gin', 'line 4', 'c16_locked_first_outer.gin', 'line 3', 'line 2']
+          }.get(name, ['line 5'] if name == 'block' else ['line 4'])
+  if not all(w in msg for w in want):
+    res.violation('error_location_chain', '%r: the error raised by the first modifying statement on a locked configuration '
+                  'does not name %r:\n%s' % (desc, want, msg), desc)
+  elif {k: dict(v) for k, v in cfg._CONFIG.items()} != {('', 'c16.f'): {'a': 1}} or not gin.config_is_locked():
+    res.violation('state_not_prefix:config', '%r: the rejected parse changed the configuration or its lock' % (desc,), desc)
+  else:
+    res.w('locked_first_statement_located')
+
+
 NSH = 64
 
 
@@ -561,6 +605,9 @@ def run_shard(i, tier):
   for n, name in enumerate(LOCKED_DYN):
     if n % NSH == i:
       check_locked_dyn(name, res)
+  for n, name in enumerate(LOCKED_FIRST):
+    if (n + 5) % NSH == i:
+      check_locked_first(name, res)
   harness.hard_reset()
   return res
 
@@ -571,6 +618,8 @@ def replay(case):
     check_provenance(case[1:], res)
   elif case[0] == 'locked_dyn':
     check_locked_dyn(case[1], res)
+  elif case[0] == 'locked_first':
+    check_locked_first(case[1], res)
   else:
     check_case(tuple(case), res)
   harness.hard_reset()
